@@ -72,10 +72,11 @@ def field_free_reduces_to_tempo(inp):
     rho0 = oqupy.operators.spin_dm('y+')
     t0 = 0.5
     g = lambda t: 0.05 + 0.4 * t ** 2                     # an explicitly time dependent dissipation rate
-    ref = oqupy.Tempo(oqupy.TimeDependentSystem(h, gammas=[g], lindblad_operators=[lambda t: oqupy.operators.sigma('-')]), bath, par, rho0,
+    A = lambda t: np.cos(2.0 * t) * oqupy.operators.sigma('-') + 0.5 * np.sin(3.0 * t) * sz     # an explicitly time dependent Lindblad operator
+    ref = oqupy.Tempo(oqupy.TimeDependentSystem(h, gammas=[g], lindblad_operators=[A]), bath, par, rho0,
                       t0).compute(t0 + 0.6, progress_type='silent').states
     mfs = oqupy.MeanFieldSystem([oqupy.TimeDependentSystemWithField(lambda t, a: h(t), gammas=[g],
-                                                                    lindblad_operators=[lambda t: oqupy.operators.sigma('-')])],
+                                                                    lindblad_operators=[A])],
                                 lambda t, states, a: -0.1 * a)
     mf = oqupy.MeanFieldTempo(mean_field_system=mfs, bath_list=[bath], initial_state_list=[rho0], initial_field=0.3 + 0j, start_time=t0,
                               parameters=par)
